@@ -285,6 +285,10 @@ class C17(F.Spec):
             elif op.startswith("packhdr "):
                 ops.append(op)
                 exp.append([x for x in g if x.startswith("PACKHDR ")])
+            elif op.startswith("topicrs "):
+                t = op.split()
+                ops.append("topicrs %s %s %s" % (dev.hex() or "-", t[1], t[2]))
+                exp.append([x for x in g if x.startswith("RSACT ")])
             elif op.startswith("topic "):
                 # the relay command parser against its Lean model (Model/MqttTopic); the device prefix as the client printed it
                 t = op.split()
